@@ -3,6 +3,8 @@ MaxLen = 4
 NApply = 3
 Names1 = {"X","Y","Z","H","S"}
 Names2 = {"CX","CY","CZ"}
+Rnd1 = {}
+Rnd2 = {}
 SPECIFICATION Spec
 INVARIANT Valid
 INVARIANT IncOK
